@@ -7,7 +7,9 @@
   * `su_bounded`, `sd_bounded`, `scrollDown_trips`, `insertLines_trips` : the trip counts are
     bounded by the screen dimensions whatever the parameter (C03's cost clause; after the `fix:`
     commit 05acf7d).
-  The closed forms of ICH / DCH / IL / DL for arbitrary `n` are in progress.
+  (these four are facts about the trip-count expressions, `min count rows ≤ rows`, nothing more).
+  The closed forms are in C08b (IL / DL / SU / SD for every n), C08c (ICH / DCH on every well-formed line) and C08lfri
+  (LF / VT / FF and RI for every count, whole-record; SU / SD whole-record).
 -/
 import Vt.Lemmas.Inv
 namespace Vt.C08
